@@ -44,6 +44,12 @@ SwitchCases == {[op |-> "backend_switch", operands |-> s, tree |-> Leaf(1), ref 
 \* format's pipeline is the one that runs
 SwitchBackCases == {[op |-> "backend_switch_back", operands |-> s, tree |-> Leaf(1), ref |-> SumSeq([i \in 1..3 |-> Pool[s[i]]])]
                      : s \in (IF Quick THEN RandomSubset(40, Seqs(3)) ELSE Seqs(3))}
+\* the user changes a variable of the pipeline between two conversions of the same backend: the second conversion works
+\* with the pipeline as it is THEN
+SetVar(vars, k, v) == SelectSeq(vars, LAMBDA e : e[1] # k) \o <<(<<k, v>>)>>
+VarsChangedCases == {[op |-> "vars_changed", operands |-> s, tree |-> Leaf(1),
+                      ref |-> [SumSeq([i \in 1..2 |-> Pool[s[i]]]) EXCEPT !.vars = SetVar(@, 1, 55)]]
+                     : s \in {t \in Seqs(2) : t[1] \in {8, 9, 10} \/ t[2] \in {8, 9, 10}}}
 ReuseCases == {[op |-> o, operands |-> s, tree |-> Leaf(1),
                 ref |-> IF o = "reuse_operand" THEN Pool[s[1]]
                         ELSE IF o \in {"resolve_twice", "resolve_defs_twice", "resolve_decorated"} THEN Resolve([i \in 1..2 |-> Pool[s[i]]])
@@ -63,7 +69,7 @@ TwiceCases == {[op |-> "sum", operands |-> <<i, i>>, tree |-> Node(Leaf(1), Leaf
 \* names given to the resolver mean the pipelines registered under them, whatever the working directory contains
 \* (the driver resolves inside a directory that has a sub-directory of every name)
 CwdCases == {[op |-> "resolve_cwd", operands |-> s, tree |-> Leaf(1), ref |-> Resolve([i \in 1..2 |-> Pool[s[i]]])] : s \in Seqs(2)}
-ASSUME LET S == SetToSeq(SwitchBackCases \cup CwdCases \cup TwiceCases \cup AfterUseCases \cup DefaultCases \cup ThirdCases \cup SumCases \cup ResolveCases \cup BackendCases \cup SwitchCases \cup ReuseCases)
+ASSUME LET S == SetToSeq(VarsChangedCases \cup SwitchBackCases \cup CwdCases \cup TwiceCases \cup AfterUseCases \cup DefaultCases \cup ThirdCases \cup SumCases \cup ResolveCases \cup BackendCases \cup SwitchCases \cup ReuseCases)
        IN  ndJsonSerialize(IOEnv.VERIF_OUT, [i \in 1..Len(S) |-> [id |-> i, pool |-> Pool] @@ S[i]])
 Init == x = 0
 Next == UNCHANGED x
